@@ -252,6 +252,34 @@ def r3_echo_taint(ctx):
 
 
 # --------------------------------------------------------------------------- R4 no partial output
+def _conj(t):
+    return list(t.values) if isinstance(t, ast.BoolOp) and isinstance(t.op, ast.And) else [t]
+
+
+def _guarded_in_expression(x, truthy_of=None, member=None):
+    """is the sub-expression x evaluated only when a guard inside the SAME expression holds?  truthy_of: text of a value
+    that must be tested for truth / `is not None`; member: (key text, table name) that must be tested with `in`.
+    Recognised: `x if G else d`, `G and x`, and `[x for .. if G]` (G may be a conjunction)."""
+    def holds(t):
+        for c in _conj(t):
+            if truthy_of is not None and (norm(c) == truthy_of or norm(c) == '%s is not None' % truthy_of):
+                return True
+            if member is not None and isinstance(c, ast.Compare) and len(c.ops) == 1 and isinstance(c.ops[0], ast.In) \
+                    and norm(c.left) == member[0] and path_of(c.comparators[0]) == member[1]:
+                return True
+        return False
+    child, p = x, A.parent(x)
+    while p is not None and not isinstance(p, ast.stmt):
+        if isinstance(p, ast.IfExp) and child is p.body and holds(p.test):
+            return True
+        if isinstance(p, ast.BoolOp) and isinstance(p.op, ast.And) and child in p.values and any(holds(v) for v in p.values[:p.values.index(child)]):
+            return True
+        if isinstance(p, (ast.ListComp, ast.GeneratorExp, ast.SetComp)) and child is p.elt and any(holds(i_) for g_ in p.generators for i_ in g_.ifs):
+            return True
+        child, p = p, A.parent(p)
+    return False
+
+
 def r4_no_partial_output(ctx):
     km = KeyMaker()
     for o in current_nodes_stay_set(ctx):
@@ -282,6 +310,7 @@ def r4_no_partial_output(ctx):
                                 # we must be on the T side
                                 if any(l == 'T' and (s.id in dom[nd.id] or s.id == nd.id) for s, l in t.succ):
                                     guarded = True
+                        guarded = guarded or _guarded_in_expression(x, member=(keytxt, x.value.id))
                         yield Ob(km('%s:%s.%s %s' % (mod, cname, f.name, norm(x))), guarded, ctx.floc(f, x),
                                  '' if guarded else 'lookup with a run-time key and no `in` guard: KeyError aborts the visitor and leaves a truncated acknowledgement')
                     # (b) method call on a value that may be None: get_value(...).m() / tree field .strip()
@@ -297,7 +326,7 @@ def r4_no_partial_output(ctx):
                         if p and p.split('.')[-1] in SOURCE_FIELDS:
                             may_none = p
                         if may_none:
-                            ok = p is not None and has(IN[nd.id], 'NotNone', p)
+                            ok = p is not None and (has(IN[nd.id], 'NotNone', p) or _guarded_in_expression(x, truthy_of=p))
                             yield Ob(km('%s:%s.%s %s' % (mod, cname, f.name, norm(x))), ok, ctx.floc(f, x),
                                      '' if ok else '%s is None when the element is absent: AttributeError aborts the visitor '
                                      'and leaves a truncated acknowledgement' % may_none)
@@ -534,7 +563,43 @@ def r8_shared_writer_counts(ctx):
         yield o
 
 
+def r9_optional_fields_guarded_by_themselves(ctx):
+    """a field of the error tree that may be absent (None: the element was not sent) is written into an acknowledgement
+    segment only under a test of that very field: `if X is not None: seg.set(pos, Y)` must have Y = X.  Testing another
+    object's field of the same name (the visitor's constant instead of the set's ST03) lets None reach Segment.set, which
+    raises; the exception is caught and logged by the driver and the acknowledgement ends after the segments written so
+    far - an interchange without its trailers."""
+    n = 0
+    for mod, cname in VISITORS:
+        cls = ctx.cls(mod, cname)
+        for f in cls.body:
+            if not isinstance(f, ast.FunctionDef):
+                continue
+            for st in ast.walk(f):
+                if not (isinstance(st, ast.If) and isinstance(st.test, ast.Compare) and len(st.test.ops) == 1 and isinstance(st.test.ops[0], ast.IsNot)
+                        and isinstance(st.test.comparators[0], ast.Constant) and st.test.comparators[0].value is None and not st.orelse):
+                    continue
+                guarded = norm(st.test.left)
+                stores = []
+                for b in st.body:
+                    if isinstance(b, ast.Expr) and isinstance(b.value, ast.Call) and A.call_target(b.value)[1] in ('set', 'append') and b.value.args:
+                        stores.append(b.value.args[-1])
+                    else:
+                        stores = None
+                        break
+                if not stores:
+                    continue
+                n += 1
+                bad = [norm(v) for v in stores if guarded not in norm(v)]
+                yield Ob('%s:%s.%s `if %s is not None` guards the value it stores' % (mod, cname, f.name, guarded), not bad, ctx.loc(mod, st),
+                         '' if not bad else 'the test is on %s but the value written is %s: when that one is None, Segment.set raises and the '
+                         'acknowledgement is cut off without its trailers' % (guarded, bad[0]))
+    if n < 1:
+        raise AnalysisError('no guarded optional field found in the visitors: the rule no longer matches the code')
+
+
 RULES = [
+    Rule('C06.R9', 'an optional tree field is written under a test of that same field', r9_optional_fields_guarded_by_themselves, floor=1),
     Rule('C06.R1', 'who may write to the acknowledgement stream', r1_who_writes, floor=2),
     Rule('C06.R2', 'GS08/ST03 written are constants selectable through maps.xml and accepted by the 997/999 map', r2_version_keys, floor=3),
     Rule('C06.R3', 'input text reaches acknowledgement segments only through a delimiter sanitiser (taint)', r3_echo_taint, floor=15),
